@@ -179,6 +179,9 @@ TABLE: list[ClassDef] = [
             FieldDef("child", "Base | None", "opt", "None", classes=ANY),
             FieldDef("items", "tuple[Base, ...]", "tuple", "()", classes=ANY),
         ],
+        # a user hook adds a key that is no field of the class
+        extra_body=("    def __post_serialize__(self, d):\n        d[\"Added\"] = len(self.items)\n"
+                    "        return super().__post_serialize__(d)\n"),
     ),
 ]
 
